@@ -283,7 +283,7 @@ def obligations(tier):
     def rsvd_pre(I):  # the branch where the sketch is a tall matrix (n_eigenvecs + oversampling within both sizes)
         return [I["k"] + 10 <= I["n"][0], I["k"] + 10 <= I["n"][1]]
     add("tenalg.svd:randomized_svd", "default oversampling", mat_setup, rsvd_call, "some", {}, "draws only from the generator derived from random_state", assumptions=rsvd_pre)
-    for opts in (dict(), dict(flip_sign=False), dict(mask=True)):
+    for opts in (dict(flip_sign=False), dict(flip_sign=False, mask=True)):
         def si_call(I, rs, opts=opts):
             S = I["_S"]
             kw = dict(opts)
@@ -291,12 +291,13 @@ def obligations(tier):
                 kw.update(mask=I["mask"], n_iter_mask_imputation=2)
             with stubbed(_svd, truncated_svd=tsvd_stub(S)):
                 return _svd.svd_interface(I["M"], n_eigenvecs=I["k"], method="randomized_svd", random_state=rs, **kw)
-        def si_setup(S):
+        def si_setup(S, opts=opts):
             d = mat_setup(S)
             d["mask"] = S.input("mask", d["n"])
+            if opts.get("mask"):
+                d["k"] = 2     # (the imputation loop builds diag(S) entry by entry in Python: number of components enumerated)
             return d
-        if "flip_sign" not in opts:
-            continue  # svd_flip's argmax is outside E1-generic: sign resolution draws nothing (bounded stand-in)
+        # (sign resolution - svd_flip's argmax - is outside E1-generic and draws nothing: bounded stand-in; the imputation loop re-runs the method)
         add("tenalg.svd:svd_interface", "method=randomized_svd," + ",".join(f"{k}={v}" for k, v in opts.items()), si_setup, si_call, "some", dict(opts),
             "draws only from the generator derived from random_state", assumptions=rsvd_pre)
     # ====================================================================== initialisers
@@ -453,7 +454,7 @@ def obligations(tier):
     for mod in ("c06", "c08"):
         m = importlib.import_module(f"vt.props.{mod}")
         for ob in m.obligations(tier):
-            if type(ob) is not GOb or ob.raises is not None or "n_iter_max=0" in ob.name or "zero budget" in ob.name or ":initialize_" in ob.function or ob.instance.get("order", 0) >= 4:
+            if type(ob) is not GOb or ob.raises is not None or "n_iter_max=0" in ob.name or "zero budget" in ob.name or "n_iter_max=" in ob.name or ":initialize_" in ob.function or ob.instance.get("order", 0) >= 4:
                 continue  # (whole-function zero-budget call sites are not loop cuts: random_state cannot be injected there)
             try:
                 f = resolve(ob.function)
